@@ -20,6 +20,41 @@ theorem closed_of_cert (cx : Ctx) (defs : Defs) (h : closedCert cx defs = true) 
   have : p ∈ allNeeds cx defs := List.mem_flatMap.mpr ⟨kd, hkd, hp⟩
   simpa using this
 
+theorem withNat_eq {α : Type} (n : Nat) (k : Nat → α) : withNat n k = k n := by cases n <;> rfl
+theorem withBool_eq {α : Type} (b : Bool) (k : Bool → α) : withBool b k = k b := by cases b <;> rfl
+theorem Abs.forced_eq {α : Type} (a : Abs) (k : Abs → α) : a.forced k = k a := by
+  simp only [Abs.forced, withNat_eq, withBool_eq]
+
+mutual
+  theorem absRuleF_eq (cx : Ctx) (K : String) : ∀ r : Rule, absRuleF cx K r = absRule cx K r
+    | .optional a body => by simp only [absRuleF, absRule, absRulesF_eq cx K body]
+    | .joinAttr src sep p => by simp only [absRuleF, absRule, absRulesF_eq cx K sep]
+    | .elisionJoinAttr src sep p => by simp only [absRuleF, absRule, absRulesF_eq cx K sep]
+    | .layout mk => by simp only [absRuleF]
+    | .struct mk => by simp only [absRuleF]
+    | .text v p => by simp only [absRuleF]
+    | .attr s p => by simp only [absRuleF]
+    | .commentsAttr s p => by simp only [absRuleF]
+    | .operator a v p => by simp only [absRuleF]
+    | .elisionToken s v p => by simp only [absRuleF]
+  theorem absRulesF_eq (cx : Ctx) (K : String) : ∀ rs : List Rule, absRulesF cx K rs = absRules cx K rs
+    | [] => by simp only [absRulesF, absRules]
+    | r :: rs => by
+      simp only [absRulesF, absRules, absRuleF_eq cx K r, absRulesF_eq cx K rs, Abs.forced_eq]
+end
+
+theorem forceCert_eq {α : Type} : ∀ (l : List (String × Abs)) (k : List (String × Abs) → α), forceCert l k = k l
+  | [], k => rfl
+  | (s, a) :: rest, k => by simp only [forceCert, Abs.forced_eq, forceCert_eq rest]
+
+theorem withCert_eq {α : Type} (rs : RuleSet) (defs : Defs) : ∀ (n : Nat) (k : List (String × Abs) → α),
+    withCert rs defs n k = k (certIter rs defs n)
+  | 0, k => rfl
+  | n + 1, k => by simp only [withCert, withCert_eq rs defs n, forceCert_eq, certIter]
+
+theorem allNeedsF_eq (cx : Ctx) (defs : Defs) : allNeedsF cx defs = allNeeds cx defs := by
+  simp only [allNeedsF, allNeeds, absRulesF_eq]
+
 /-- no exact-signature text starts with a quote -/
 theorem litTable_no_quote :
     (litTable.all fun t => t.toList.head? != some '"' && t.toList.head? != some '\'') = true := by decide +kernel
@@ -27,20 +62,19 @@ theorem litTable_no_quote :
 theorem sig_str_of_quote (s : String) (c : Char) (rest : List Char) (hs : s.toList = c :: rest)
     (hq : (c == '"' || c == '\'') = true) : sig s = .str := by
   unfold sig
-  have hn : litTable.contains s = false := by
-    cases hct : litTable.contains s with
-    | false => rfl
-    | true =>
-      have hmem : s ∈ litTable := by simpa using hct
-      have := List.all_eq_true.mp litTable_no_quote s hmem
-      rw [hs] at this
-      simp only [List.head?_cons, Bool.and_eq_true, bne_iff_ne, ne_eq, Option.some.injEq] at this
-      simp only [Bool.or_eq_true, beq_iff_eq] at hq
-      rcases hq with hq | hq
-      · exact absurd hq this.1
-      · exact absurd hq this.2
-  rw [hn]
-  simp only [Bool.false_eq_true, if_false, hs, sigChars, hq, if_true]
+  cases hidx : litIdx s with
+  | some i =>
+    exfalso
+    have hmem : s ∈ litTable := idxIn_mem _ _ _ _ hidx
+    have := List.all_eq_true.mp litTable_no_quote s hmem
+    rw [hs] at this
+    simp only [List.head?_cons, Bool.and_eq_true, bne_iff_ne, ne_eq, Option.some.injEq] at this
+    simp only [Bool.or_eq_true, beq_iff_eq] at hq
+    rcases hq with hq | hq
+    · exact this.1 hq
+    · exact this.2 hq
+  | none =>
+    simp only [hs, sigChars, hq, if_true]
 
 theorem quote_of_sig_str (s : String) (h : sig s = .str) :
     ∃ c rest, s.toList = c :: rest ∧ (c == '"' || c == '\'') = true := by
